@@ -24,7 +24,12 @@ KSET = "{" + ",".join('"%s"' % k for k in KINDS) + "}"
 def encode(sym, rng, last):
     """-> (bytes, expected attribute dict)"""
     k, w, fl = sym["k"], sym["w"], sym["fl"]
-    v = lambda: rng.randrange(1 << min(8 * w - 2, 30)) if rng.random() < 0.8 else rng.randrange(64)
+    if sym.get("mix"):              # the fields of ONE frame need not share a width: each gets its own
+        Q.MIXRNG = rng
+        w = "mix"
+        v = lambda: rng.choice([rng.randrange(64), rng.randrange(64, 16384), rng.randrange(16384, 1 << 30), rng.randrange(300)])
+    else:
+        v = lambda: rng.randrange(1 << min(8 * w - 2, 30)) if rng.random() < 0.8 else rng.randrange(64)
     data = bytes(rng.getrandbits(8) for _ in range(rng.choice([0, 1, 5, 40]))) if k != "padding" else b""
     if k == "padding":
         n = rng.randint(1, 9)
@@ -232,7 +237,14 @@ def run(chk):
         n = rng.choice([3, 5, 17, 63, 64, 65, 66, 100, 257, 400])
         seqs.append([rng.choice(closed) for _ in range(n - 1)] + [rng.choice(syms)])
         nlong += 1
+    # frames whose fields have DIFFERENT varint widths (e.g. sequence number 64 with retire-prior-to 3; an ACK gap of 5 with a range of 700)
+    nmix = 0
+    for _ in range(400 if quick else 8000):
+        n = rng.choice([1, 2, 3, 5])
+        seqs.append([dict(rng.choice(closed), mix=True) for _ in range(n - 1)] + [dict(rng.choice(syms), mix=True)])
+        nmix += 1
     chk.extra["long_sequences"] = nlong
+    chk.extra["mixed_width_sequences"] = nmix
     rng.shuffle(seqs)
     reps = 1 if quick else 3
     chunks = [(seqs[i::32], rng.randrange(1 << 30)) for i in range(32)] * reps
